@@ -19,6 +19,11 @@ CLAIMED = {
         design_ref="DESIGN.md section 5, C16; T-dfs",
         note="Trusted: Coq kernel + vm_compute; hand-written machine models tied by callback-log comparison; translator for the hook shapes. Partial: call-stack growth is a property of the Rust text (the model is iterative by construction); visitors that mutate the tree are outside the model. No axioms.",
         technique="Coq proof: explicit-stack machine = recursive specification by nested induction with arbitrary continuation; generated hook-shape constants; differential callback logs evaluated in Coq"),
+    "C15": dict(
+        text="Coq theorems on an executable model of FunctionBuilder/InstrSeqBuilder: every structured builder program (append, positional insert, nested block/loop/if_else and their *_at forms, in any insertion order) builds without panic an arena holding exactly the denoted tree with fresh pairwise-distinct sequence ids, and emitting it (explicit-stack traversal + Emit visitor models) yields exactly the in-order flattening of that tree: same instructions, same order, correct nesting, branch depth = number of enclosing sequences up to the target. The models are tied to the code by re-building every function of generated valid modules through the real builder API in random insertion orders (incl. dangling sequences attached later), comparing the IR and the emitted body inside Coq; an independent oracle requires the builder-made twin to emit the same operator stream as the parsed original.",
+        design_ref="DESIGN.md section 5, C15; T-emit, T-dfs",
+        note="Trusted: Coq kernel + vm_compute; hand-written builder/traversal/emitter models tied by differential replay; translator for encode tables. Theorems cover the structured (closure) fragment; hand-attached dangling sequences only by the correspondence run. No axioms.",
+        technique="Coq proof: builder machine = denoted tree (invariant over arena extensions), composed with traversal and emitter theorems; differential replay through the real builder API evaluated in Coq"),
 }
 
 PENDING_REASON = "check not yet built in this snapshot (construction in progress per DESIGN.md section 10); an executable Coq model is planned, so this is not a claim that the technique cannot apply"
